@@ -785,3 +785,52 @@ pub fn descr(v: &Option<Vec<u8>>) -> String {
         Some(b) => format!("Some(len={},{}..)", b.len(), hex8(b)),
     }
 }
+
+/// One-line summary of the database directory (meta fields and rollback segment files).
+pub fn dir_summary(dir: &Path) -> String {
+    let mut out = String::new();
+    if let Ok(m) = std::fs::read(dir.join("meta")) {
+        if m.len() >= 64 {
+            let u32at = |o: usize| u32::from_le_bytes(m[o..o + 4].try_into().unwrap());
+            let u64at = |o: usize| u64::from_le_bytes(m[o..o + 8].try_into().unwrap());
+            out += &format!(
+                "meta{{ln_fl={},ln_bump={},bbn_fl={},bbn_bump={},seqn={},rb_live=({},{})}}",
+                u32at(8),
+                u32at(12),
+                u32at(16),
+                u32at(20),
+                u32at(24),
+                u64at(48),
+                u64at(56)
+            );
+        }
+    }
+    let mut segs = Vec::new();
+    if let Ok(rd) = std::fs::read_dir(dir) {
+        for e in rd.flatten() {
+            let name = e.file_name().to_string_lossy().to_string();
+            if name.starts_with("rollback") {
+                let len = e.metadata().map(|m| m.len()).unwrap_or(0);
+                // record ids inside
+                let mut ids = Vec::new();
+                if let Ok(b) = std::fs::read(e.path()) {
+                    let mut pos = 0usize;
+                    while pos + 12 <= b.len() {
+                        let plen = u32::from_le_bytes(b[pos..pos + 4].try_into().unwrap()) as usize;
+                        let id = u64::from_le_bytes(b[pos + 4..pos + 12].try_into().unwrap());
+                        ids.push(id);
+                        let end = pos + 12 + plen;
+                        pos = (end + 4095) / 4096 * 4096;
+                        if plen == 0 && id == 0 {
+                            break;
+                        }
+                    }
+                }
+                segs.push(format!("{name}(len={len},ids={ids:?})"));
+            }
+        }
+    }
+    segs.sort();
+    out += &format!(" segments=[{}]", segs.join(","));
+    out
+}
